@@ -293,7 +293,9 @@ pub fn run(run: &mut Run, args: &Args) {
         // ---- implementation-level oracle: physical evaluation of input and output
         let props = datafusion_expr::execution_props::ExecutionProps::new();
         let pctx = datafusion_expr::physical_planning_context::PhysicalPlanningContext::default();
-        let p0 = datafusion_physical_expr::create_physical_expr(&de, dfs.as_ref(), &props, &pctx);
+        // (the physical planner needs COALESCE in its CASE form, which only the simplifier produces)
+        let de_phys = e.lower_coalesce().df(&cols);
+        let p0 = datafusion_physical_expr::create_physical_expr(&de_phys, dfs.as_ref(), &props, &pctx);
         let p1 = datafusion_physical_expr::create_physical_expr(&simp, dfs.as_ref(), &props, &pctx);
         let (p0, p1) = match (p0, p1) {
             (Ok(a), Ok(b)) => (a, b),
